@@ -28,7 +28,7 @@ META = list("<>/%#()$") + [" ", "\t", "=", "+", "*"]
 def mutate_text(rng, lines, n):
     lines = [str(l) for l in lines]
     for _ in range(n):
-        level = rng.choice(["char", "char", "token", "line"])
+        level = rng.choice(["char", "char", "token", "line", "gut"])
         if not lines:
             lines.append(rng.choice(META))
             continue
@@ -49,6 +49,18 @@ def mutate_text(rng, lines, n):
             else:
                 s = s[:p] + rng.choice(META) + s[p:]
             lines[i] = s
+        elif level == "gut":
+            # empty a line of its content but keep its punctuation: '<t1 n1>' -> '<>', '</t1>' -> '</>',
+            # '%define a b' -> '%', 'key value' -> the first character
+            t = s.strip()
+            if t.startswith("</"):
+                lines[i] = rng.choice(["</>", "</ >", "</"])
+            elif t.startswith("<"):
+                lines[i] = rng.choice(["<>", "< >", "</>", "<", "< />", "<//>"])
+            elif t.startswith("%"):
+                lines[i] = rng.choice(["%", "% ", "%" + t.split()[0][1:]])
+            else:
+                lines[i] = t[:1]
         elif level == "token":
             toks = s.split(" ")
             op = rng.choice(["del", "dup", "swap"])
